@@ -230,3 +230,49 @@ impl ConfigReloader {
         Ok(rate)
     }
 }
+
+/// Verification hook (only with `--cfg log4rs_verif`): a single-stepped reloader.
+#[cfg(log4rs_verif)]
+#[allow(missing_docs)]
+pub struct VerifReloader(ConfigReloader);
+
+#[cfg(log4rs_verif)]
+#[allow(missing_docs)]
+impl VerifReloader {
+    /// Performs the steps of `init_file` except installing the global logger:
+    /// the file's configuration is applied through `handle`. Returns the
+    /// reloader and the file's refresh rate.
+    pub fn new<P>(
+        path: P,
+        deserializers: Deserializers,
+        handle: Handle,
+    ) -> anyhow::Result<(VerifReloader, Option<Duration>)>
+    where
+        P: AsRef<Path>,
+    {
+        let path = path.as_ref().to_path_buf();
+        let format = Format::from_path(&path)?;
+        let source = read_config(&path)?;
+        let modified = fs::metadata(&path).and_then(|m| m.modified()).ok();
+        let config = format.parse(&source)?;
+        let refresh_rate = config.refresh_rate();
+        let config = deserialize(&config, &deserializers);
+        handle.set_config(config);
+        Ok((
+            VerifReloader(ConfigReloader {
+                path,
+                format,
+                source,
+                modified,
+                deserializers,
+                handle,
+            }),
+            refresh_rate,
+        ))
+    }
+
+    /// One iteration of the reloader loop body (without the sleep).
+    pub fn step(&mut self, rate: Duration) -> anyhow::Result<Option<Duration>> {
+        self.0.run_once(rate)
+    }
+}
